@@ -18,6 +18,9 @@ def run(chk):
                          "along axis 1, flipud")
     chk.rule("R-ST-LIN", "the transform is linear in the record, complex, (n/2) x n; the inverse is linear, sums over axis 1, leaves bins 0 and "
                          "n/2 at zero and returns the real part")
+    chk.rule("R-ST-GAUSS", "the shared window is exp(-(2*pi*f_m/f_k)^2/2) transposed, f_k = k/(2*n_d2) for k = 0..n_d2, f_m the FFT-ordered "
+                           "signed frequencies (non-negative half followed by the flipped negated interior), k from 1: normal form of the "
+                           "returned expression against the reference spelling")
     chk.rule("R-ST-AXIS", "dominant-frequency helpers take argmax(abs(.), axis=0) and map it through a frequency axis flipped like the rows")
 
     def gauss_tag(I):
@@ -118,6 +121,8 @@ def run(chk):
         a, b = summ.values()
         chk.ob("R-ST-AXIS", "get_max_stockwell_freq~get_max_tifq_vals_freq", "sibling helpers have equal summaries", a == b, derived="%s vs %s" % (a, b))
     # no ordering on complex data in the module (the package-wide rule lives in C06)
+    gauss_rule(chk)
+    chk.floor("R-ST-GAUSS", 1)
     chk.floor("R-ST-SIB", 12)
     chk.floor("R-ST-LIN", 10)
     chk.floor("R-ST-AXIS", 4)
@@ -152,3 +157,45 @@ def _skeleton_from(r, q):
             facts["rows"] = (repr(lo.sym) if lo is not None else None, repr(up.sym) if up is not None else None)
             sk.append(("rows",) + facts["rows"])
     return sk, facts
+
+
+GAUSS_REF = ("np.exp(-(2 * np.pi * np.outer(np.concatenate((H, np.flipud(-H[1:-1]))), 1. / H[1:])) ** 2 / 2).transpose()",
+             "np.arange(0, N + 1, 1) / (2 * N)")
+
+
+def gauss_rule(chk):
+    """The voice Gaussian in the frequency domain, exp(-2 pi^2 m^2 / k^2), is shared by both transforms, so a sibling comparison cannot
+    see a changed width; its formula is compared here with a reference spelling in polynomial normal form (constants folded,
+    temporaries inlined).  A difference confined to numeric constants / operators refutes; a different set of calls is inconclusive."""
+    import re
+    from ..poly import Normaliser, straightline_env
+    fi = chk.P.fn(ST + "generate_gaussian")
+    c = "eqsig/stockwell.py:generate_gaussian"
+    rets = [n for n in ast.walk(fi.node) if isinstance(n, ast.Return)]
+    if len(rets) != 1 or len(fi.params) != 1:
+        chk.ob("R-ST-GAUSS", c, "one parameter, one return", False, derived="%d return(s)" % len(rets), inconclusive=True, loc=fi.loc())
+        return
+    syn = {"np.flip": "np.flipud", "numpy.flipud": "np.flipud", "np.transpose": "np.transpose"}
+    norm = straightline_env(fi.node.body, Normaliser(rename={fi.params[0]: "N"}), exclude=set(fi.params))
+    class _T(ast.NodeTransformer):
+        def visit_Attribute(self, n):
+            self.generic_visit(n)
+            if n.attr == "T" and isinstance(n.ctx, ast.Load):
+                return ast.Call(func=ast.Attribute(value=n.value, attr="transpose", ctx=ast.Load()), args=[], keywords=[])
+            return n
+    import copy
+    got = norm.poly(ast.fix_missing_locations(_T().visit(copy.deepcopy(rets[0].value)))).canon()
+    ref_txt = GAUSS_REF[0].replace("H", "(" + GAUSS_REF[1] + ")")
+    want = Normaliser().poly(ast.parse(ref_txt, mode="eval").body).canon()
+    for a, b in (("np.flip(", "np.flipud("), (".T", ".transpose()"), ("numpy.", "np."), ("math.pi", "pi")):
+        got = got.replace(a, b)
+    skel = lambda t: re.findall(r"[A-Za-z_][\w\.]*", t)     # the sequence of names and calls; constants and operators dropped
+    if got == want:
+        chk.ob("R-ST-GAUSS", c, "window = exp(-(2 pi f_m / f_k)^2 / 2), transposed", True, derived="equal to the reference normal form", loc=fi.loc(rets[0]),
+               nontrivial=True)
+    elif skel(got) == skel(want):
+        chk.ob("R-ST-GAUSS", c, "window = exp(-(2 pi f_m / f_k)^2 / 2), transposed", False, derived="same calls, different constants: %s" % got[:240],
+               loc=fi.loc(rets[0]), detail="reference: %s" % want[:240])
+    else:
+        chk.ob("R-ST-GAUSS", c, "window = exp(-(2 pi f_m / f_k)^2 / 2), transposed", False, derived="built differently: %s" % got[:240],
+               inconclusive=True, loc=fi.loc(rets[0]))
